@@ -264,26 +264,32 @@ def run(ctx: Any, prog: Program) -> None:
                           func=f'BSP._lmp_write_{v}', text=f'{v}: {width}s from {src}')
     tw = ms['_lmp_write_textures']
     ok = any(isinstance(g, ast.If) and 'len(tex) >= 128' in ast.unparse(g.test) and any(isinstance(x, ast.Raise) for x in g.body) for g in walk_no_nested(tw))
-    ctx.check('C11.L6', ok, bsp, tw, 'texture names longer than the 128-byte table entry must be rejected', func='BSP._lmp_write_textures', text='texture name length check')
+    ctx.shape('C11.L6', ok, bsp, tw, 'texture names longer than the 128-byte table entry must be rejected', func='BSP._lmp_write_textures', text='texture name length check')
     # ---- L11 -------------------------------------------------------------------------------------------------
     n_pool = string_pool_check(ctx, 'C11.L11', bsp, tw, 'BSP._lmp_write_textures', b'\0')
     if n_pool == 0:
         raise AnalysisError('_lmp_write_textures: the string pool search/append pair was not found')
     rt_ = ms['_lmp_read_textures']
     ok = any(isinstance(c, ast.Call) and isinstance(c.func, ast.Attribute) and c.func.attr == 'index' and c.args and isinstance(c.args[0], ast.Constant) and c.args[0].value == b'\0' for c in walk_no_nested(rt_))
-    ctx.check('C11.L11', ok, bsp, rt_, 'the texture name reader cuts each name at the NUL terminator', func='BSP._lmp_read_textures', text='reader cuts at terminator')
+    ctx.shape('C11.L11', ok, bsp, rt_, 'the texture name reader cuts each name at the NUL terminator', func='BSP._lmp_read_textures', text='reader cuts at terminator')
     # ---- L7 --------------------------------------------------------------------------------------------------
     enc = bsp.func('runlength_encode')
     dec = bsp.func('runlength_decode')
     esrc, dsrc = ast.unparse(enc), ast.unparse(dec)
     inner = [n for n in ast.walk(enc) if isinstance(n, ast.While) and ast.unparse(n.test) == 'dist > 0']
-    ok = len(inner) == 1 and [ast.unparse(s) for s in inner[0].body] == ['result.append(0)', 'result.append(min(255, dist))', 'dist -= 255']
-    ctx.check('C11.L7', ok, bsp, inner[0] if inner else enc, 'runlength_encode must emit (0x00, min(255, dist)) pairs until the zero run is exhausted (count byte in 1..255)', text='encode zero-run records')
-    ctx.check('C11.L7', 'dist = zero_end - zero_ind' in esrc and 'pos = zero_end' in esrc, bsp, enc, 'the encoder must measure the whole zero run and continue after it', text='encode run length and advance')
-    ctx.check('C11.L7', 'while zero_end < size and data[zero_end] == 0' in esrc, bsp, enc, 'the encoder must scan to the end of the zero run without leaving the buffer', text='encode run scan')
-    ctx.check('C11.L7', 'zeros = data[zero_ind + 1]' in dsrc and 'result += bytes(zeros)' in dsrc, bsp, dec, 'the decoder must read the count byte following the zero and emit that many zeros', text='decode count byte')
-    ctx.check('C11.L7', 'pos = zero_ind + 2' in dsrc, bsp, dec, 'the decoder must skip exactly the two-byte record', text='decode advance by 2')
-    ctx.check('C11.L7', 'result += view[pos:zero_ind]' in dsrc and 'result += view[pos:zero_ind]' in esrc, bsp, dec, 'non-zero bytes are copied verbatim on both sides', text='literal bytes copied')
+    caps = [c.args[0].value for n in inner for c in ast.walk(n) if isinstance(c, ast.Call) and dotted(c.func) == 'min' and len(c.args) == 2 and isinstance(c.args[0], ast.Constant) and dotted(c.args[1]) == 'dist']
+    decs = [st.value.value for n in inner for st in n.body if isinstance(st, ast.AugAssign) and isinstance(st.op, ast.Sub) and dotted(st.target) == 'dist' and isinstance(st.value, ast.Constant)]
+    if len(inner) != 1 or len(caps) != 1 or len(decs) != 1:
+        ctx.shape('C11.L7', False, bsp, inner[0] if inner else enc, 'zero-run emission loop (min(cap, dist) / dist -= step) not recognised', text='encode zero-run records')
+    else:
+        ctx.check('C11.L7', caps[0] == decs[0] == 255, bsp, inner[0], f'runlength_encode emits a count byte of at most {caps[0]} but advances the remaining run by {decs[0]}: both must be 255 (one byte), '
+                  'otherwise zeros are lost or duplicated for runs longer than the cap', text='encode zero-run records')
+        ctx.shape('C11.L7', [ast.unparse(s_) for s_ in inner[0].body][:2] == ['result.append(0)', f'result.append(min({caps[0]}, dist))'], bsp, inner[0], 'record is (0x00, count)', text='encode record layout')
+    ctx.shape('C11.L7', 'dist = zero_end - zero_ind' in esrc and 'pos = zero_end' in esrc, bsp, enc, 'the encoder must measure the whole zero run and continue after it', text='encode run length and advance')
+    ctx.shape('C11.L7', 'while zero_end < size and data[zero_end] == 0' in esrc, bsp, enc, 'the encoder must scan to the end of the zero run without leaving the buffer', text='encode run scan')
+    ctx.shape('C11.L7', 'zeros = data[zero_ind + 1]' in dsrc and 'result += bytes(zeros)' in dsrc, bsp, dec, 'the decoder must read the count byte following the zero and emit that many zeros', text='decode count byte')
+    ctx.shape('C11.L7', 'pos = zero_ind + 2' in dsrc, bsp, dec, 'the decoder must skip exactly the two-byte record', text='decode advance by 2')
+    ctx.shape('C11.L7', 'result += view[pos:zero_ind]' in dsrc and 'result += view[pos:zero_ind]' in esrc, bsp, dec, 'non-zero bytes are copied verbatim on both sides', text='literal bytes copied')
     # ---- L8 --------------------------------------------------------------------------------------------------
     wed = bsp.func('BSP.write_ent_data')
     n_slots = 0
@@ -308,7 +314,7 @@ def run(ctx: Any, prog: Program) -> None:
     ctx.check('C11.L8', ok, bsp, tks[0] if tks else re_, 'the entity lump reader must tokenise with allow_escapes=True (the writer escapes)', func='BSP._lmp_read_ents', text='reader decodes escapes')
     ok = any(isinstance(c, ast.Call) and dotted(c.func) == 'output.as_keyvalue' for c in walk_no_nested(wed)) and \
         any(isinstance(c, ast.Call) and dotted(c.func) == 'Output.parse' for c in walk_no_nested(re_))
-    ctx.check('C11.L8', ok, bsp, wed, 'outputs must be written with Output.as_keyvalue and read with Output.parse', func='BSP.write_ent_data', text='outputs via as_keyvalue/parse')
+    ctx.shape('C11.L8', ok, bsp, wed, 'outputs must be written with Output.as_keyvalue and read with Output.parse', func='BSP.write_ent_data', text='outputs via as_keyvalue/parse')
     # ---- L9 --------------------------------------------------------------------------------------------------
     rb, wb = ms['_lmp_read_bmodels'], ms['_lmp_write_bmodels']
     wsent = [c for c in walk_no_nested(wb) if isinstance(c, ast.Call) and dotted(c.func) == 'struct.pack' and len(c.args) == 5 and isinstance(c.args[1], ast.UnaryOp)]
@@ -316,7 +322,7 @@ def run(ctx: Any, prog: Program) -> None:
     ctx.check('C11.L9', ok, bsp, wsent[0] if wsent else wb, 'the physics lump must end with a (-1, 0, 0, 0) header record', func='BSP._lmp_write_bmodels', text='sentinel written')
     rt = [n for n in walk_no_nested(rb) if isinstance(n, ast.If) and ast.unparse(n.test) == 'mdl_ind == -1' and any(isinstance(x, ast.Break) for x in n.body)]
     first_field_ok = any(isinstance(n, ast.Assign) and isinstance(n.targets[0], ast.Tuple) and ast.unparse(n.targets[0].elts[0]) == 'mdl_ind' and 'struct_read' in ast.unparse(n.value) for n in walk_no_nested(rb))
-    ctx.check('C11.L9', bool(rt) and first_field_ok, bsp, rt[0] if rt else rb, 'the reader must stop on a header whose first field is -1', func='BSP._lmp_read_bmodels', text='sentinel consumed')
+    ctx.shape('C11.L9', bool(rt) and first_field_ok, bsp, rt[0] if rt else rb, 'the reader must stop on a header whose first field is -1', func='BSP._lmp_read_bmodels', text='sentinel consumed')
 
 
 MUTANTS = [
